@@ -13,6 +13,8 @@ package main
 //      others (verified and unverified, also several distinct ones of one key) are emitted, before the new ones.
 //  (A) VerifierList with two verifiers for one (name, hash): lookup fails, Open fails.
 //  (L) (S)/(B)/(R) on signature blocks with a very long line (long signature of a custom Signer, long key name): util_c07long.go.
+//  (C) (P) on signature lines whose base64 field is VALID but NOT CANONICAL (non-zero unused bits in the last digit):
+//      Open accepts and reports that spelling, so Sign of the returned note must succeed and keep it (util_c07spell.go).
 //  (H) "any set of known verifiers": a VerifierList holds the verifiers it was built from, whatever the caller
 //      does with the slice it passed with '...' afterwards; (S)/(B)/(R)/(A) on such histories (util_c07alias.go).
 
@@ -179,9 +181,13 @@ type c07BLine struct {
 	name string
 	hash uint32
 	sig  []byte
+	b64  string // the line's base64 field as spelled in the message; "" = the canonical encoding of hash ‖ sig (util_c07spell.go)
 }
 
 func c07B64(l c07BLine) string {
+	if l.b64 != "" {
+		return l.b64
+	}
 	var h [4]byte
 	binary.BigEndian.PutUint32(h[:], l.hash)
 	return base64.StdEncoding.EncodeToString(append(h[:], l.sig...))
@@ -239,7 +245,7 @@ func c07RelayLine(r *Rand, lines []c07BLine, pick func() string) []c07BLine {
 	}
 	at := r.Intn(len(lines) + 1)
 	out := append([]c07BLine{}, lines[:at]...)
-	out = append(out, c07BLine{name, src.hash, src.sig})
+	out = append(out, c07BLine{name, src.hash, src.sig, ""})
 	return append(out, lines[at:]...)
 }
 
@@ -253,6 +259,11 @@ func oracleC07(g *Gen, n int) {
 	// (L) very long signature lines (util_c07long.go): each case is large, so they are a fixed share, not a switch arm
 	for it := 0; it < n/16+8; it++ {
 		c07OracleLong(g, rl, keys)
+	}
+	// (C) non-canonical base64 spellings through Open -> Sign -> Open (util_c07spell.go): a fixed share on a forked stream
+	rs := c07Fork(r, 0xc07d)
+	for it := 0; it < n/8+16; it++ {
+		c07ReSign(g, rs, keys, true)
 	}
 	for it := 0; it < n; it++ {
 		switch r.Intn(16) {
@@ -531,7 +542,7 @@ func c07OracleBuilt(g *Gen) {
 			sig = append([]byte(nil), sig...)
 			sig[r.Intn(len(sig))] ^= 0x40
 		}
-		l := c07BLine{k.name, k.hash, sig}
+		l := c07BLine{k.name, k.hash, sig, ""}
 		if len(lines) > 0 && r.Chance(15) {
 			l = lines[r.Intn(len(lines))]
 		}
@@ -700,7 +711,7 @@ func c07OracleRelay(g *Gen, keys []c07Real) {
 			g.Fail("real signer failed", s.vkey)
 			return
 		}
-		lines = append(lines, c07BLine{s.name, s.signer.KeyHash(), sig})
+		lines = append(lines, c07BLine{s.name, s.signer.KeyHash(), sig, ""})
 	}
 	if r.Chance(30) { // a bad signature (of a known or of an unknown key)
 		i := r.Intn(len(lines))
@@ -775,6 +786,7 @@ type c07RSKey struct {
 	s     note.Signer
 	vspec string // stub verifier spec / real verifier key
 	sspec string // stub signer spec ("" for a real key)
+	all   bool   // stub key whose verifier accepts every signature (spec a), signer constant (spec k)
 }
 
 // c07OracleReSign: (P) on multi-step histories Open -> Sign -> Open.
@@ -790,13 +802,21 @@ type c07RSKey struct {
 // opened again with the same or another known set. Expected: the re-signed message carries every existing signature
 // whose key no signer uses, then the signers' lines; Open of it is what the property text says for that block
 // (c07ExpectBlock).
-func c07OracleReSign(g *Gen, keys []c07Real) {
-	r := g.Rand
+func c07OracleReSign(g *Gen, keys []c07Real) { c07ReSign(g, g.Rand, keys, false) }
+
+// c07ReSign: the Open -> Sign -> Open history on the stream r. spell adds the input class "valid but non-canonical
+// base64 spelling of signature lines" (util_c07spell.go); with spell == false the draws from r are exactly those of
+// the case as it was before that class existed.
+func c07ReSign(g *Gen, r *Rand, keys []c07Real, spell bool) {
 	text := c07GoodText(r)
 	if !c07ValidText(text) {
 		return
 	}
-	g.Case("resign")
+	if spell {
+		g.Case("resign-spell")
+	} else {
+		g.Case("resign")
+	}
 	real := r.Chance(50)
 	var u []c07RSKey
 	used := map[c07Key]bool{}
@@ -821,6 +841,13 @@ func c07OracleReSign(g *Gen, keys []c07Real) {
 			}
 			used[ck] = true
 			name := ck.name
+			if spell && r.Chance(50) {
+				// an accept-all verifier with a constant 3-byte signer: hash ‖ sig is 7 bytes, "==" padding, 16 spellings
+				u = append(u, c07RSKey{k: ck, vspec: c07KeySpec(ck, "a"), sspec: c07KeySpec(ck, "k"), all: true,
+					s:    &c07Signer{ck.name, ck.hash, 'k'},
+					sign: func(t string) []byte { return []byte{1, 2, 3} }})
+				continue
+			}
 			u = append(u, c07RSKey{k: ck, vspec: c07KeySpec(ck, "f"), sspec: c07KeySpec(ck, "f"),
 				s:    &c07Signer{ck.name, ck.hash, 'f'},
 				sign: func(t string) []byte { return c07StubSig(name, []byte(t)) }})
@@ -837,6 +864,9 @@ func c07OracleReSign(g *Gen, keys []c07Real) {
 		k := byKey[c07Key{l.name, l.hash}]
 		if k != nil && k.v != nil { // real key: what its verifier says
 			return k.v.Verify([]byte(text), l.sig)
+		}
+		if k != nil && k.all { // stub key, behaviour a
+			return true
 		}
 		return k != nil && bytes.Equal(l.sig, k.sign(text)) // stub key, behaviour f
 	}
@@ -866,11 +896,15 @@ func c07OracleReSign(g *Gen, keys []c07Real) {
 		g0 := u[i].sign(text)
 		nl := 1 + r.Intn(3)
 		var q []c07BLine
-		q = append(q, c07BLine{u[i].k.name, u[i].k.hash, g0})
+		q = append(q, c07BLine{u[i].k.name, u[i].k.hash, g0, ""})
 		for j := 1; j < nl; j++ {
 			bad := append([]byte(nil), g0...)
 			bad[(j*2+r.Intn(2))%len(bad)] ^= byte(1 << uint(r.Intn(8))) // distinct bytes for distinct j (len >= 5)
-			q = append(q, c07BLine{u[i].k.name, u[i].k.hash, bad})
+			if spell && !real {
+				// stub signatures are 5 bytes (hash ‖ sig = 9 bytes: no padding, one spelling only): other lengths
+				bad = append(bad, r.Bytes(r.Intn(3), "\x00\x01ab\xff")...)
+			}
+			q = append(q, c07BLine{u[i].k.name, u[i].k.hash, bad, ""})
 		}
 		if nl > 1 {
 			multi = true
@@ -900,11 +934,25 @@ func c07OracleReSign(g *Gen, keys []c07Real) {
 		l := lines[r.Intn(len(lines))]
 		lines = append(append(append([]c07BLine{}, lines[:at]...), l), lines[at:]...)
 	}
+	if spell {
+		// each line on its own (so also: one of two identical lines only, which makes them two different lines)
+		some := false
+		for i := range lines {
+			if r.Chance(60) {
+				if s := c07Respell(r, c07B64(lines[i])); s != c07B64(lines[i]) {
+					lines[i].b64, some = s, true
+				}
+			}
+		}
+		if some {
+			g.Case("resign-spell-noncanonical")
+		}
+	}
 	build := func(ls []c07BLine) string {
 		var b strings.Builder
 		b.WriteString(text + "\n")
 		for _, l := range ls {
-			b.WriteString(c07SigLine(l.name, l.hash, l.sig))
+			b.WriteString("— " + l.name + " " + c07B64(l) + "\n")
 		}
 		return b.String()
 	}
@@ -979,15 +1027,15 @@ func c07OracleReSign(g *Gen, keys []c07Real) {
 		if signs[c07Key{s.Name, s.Hash}] {
 			continue
 		}
-		raw, _ := base64.StdEncoding.DecodeString(s.Base64) // checked by the partition comparison above
-		lines2 = append(lines2, c07BLine{s.Name, s.Hash, raw[4:]})
+		raw, _ := base64.StdEncoding.DecodeString(s.Base64)                  // checked by the partition comparison above
+		lines2 = append(lines2, c07BLine{s.Name, s.Hash, raw[4:], s.Base64}) // re-emitted as Open reported it
 		if !bytes.Contains(msg2[len(text):], []byte("\n— "+s.Name+" "+s.Base64+"\n")) {
 			g.Fail("Sign dropped an existing signature whose key no signer uses", info+" resigned="+hx(string(msg2)), ops...)
 		}
 	}
 	for _, s := range signers {
 		k := byKey[c07Key{s.Name(), s.KeyHash()}]
-		lines2 = append(lines2, c07BLine{k.k.name, k.k.hash, k.sign(text)})
+		lines2 = append(lines2, c07BLine{k.k.name, k.k.hash, k.sign(text), ""})
 	}
 	// second Open: the same known set, or another one
 	known2, vs2, spec2, log2 := known1, vs1, spec1, log1
